@@ -172,8 +172,17 @@ bool VariableManager::handle_typedef_resolution(const ASTNode *node,
 
                 // 総サイズを計算
                 int total_size = 1;
-                for (int dim : dimensions) {
-                    total_size *= dim;
+                {
+                    // 64-bit product with a bound: int[65536][65536] overflows int
+                    int64_t checked_total = 1;
+                    for (int dim : dimensions) {
+                        checked_total *= dim;
+                        if (checked_total > 268435456 || checked_total < -268435456) {
+                            throw std::runtime_error(
+                                "Array too large: more than 268435456 elements");
+                        }
+                    }
+                    total_size = static_cast<int>(checked_total);
                 }
                 var.array_size = total_size;
 
